@@ -23,6 +23,7 @@ const ACCTS_EXEC: [&str; 4] = ["a", "b", "c", "d"];
 const ACCTS_DRIVE: [&str; 5] = ["a", "b", "c", "d", "e"];
 const PROBES: u32 = 3; // out-of-range indices probed: count, count+1, count+2
 const MAX_LIST: u32 = 16;
+const DRIVE_STOCK: u32 = 3;
 
 /// Access!PresetGrants / Access!PresetRadm
 fn preset_grants(p: &str) -> Vec<(&'static str, &'static str)> {
@@ -291,9 +292,11 @@ impl Sys {
     }
 }
 
-fn reset_event(sys: &Sys, preset: &str) -> Value {
+/// `stock`: tokens per account put in stock before the run (-1: one per burn call of the behaviour).
+/// The reset op minus "op" comes back as `cfg` when a violation is replayed.
+fn reset_event(sys: &Sys, preset: &str, stock: i64) -> Value {
     json!({"op": {"op": "reset", "acct": "none", "role": "none", "arole": "none", "caller": "none", "auth": [],
-                  "preset": preset},
+                  "preset": preset, "accts": sys.accts.len(), "stock": stock},
            "now": seq(&sys.e), "res": "ok", "err": 0, "obs": sys.obs()})
 }
 
@@ -371,15 +374,23 @@ fn main() {
             let mut t = Trace::create(&output);
             for b in read_behaviours(&input) {
                 let preset = b.cfg.get("preset").and_then(|v| v.as_str()).unwrap_or("fresh").to_string();
-                // one token in stock per burn call of the behaviour
+                // replayed driver runs name their universe and stock; TLC's behaviours use the defaults
+                let accts: &[&str] =
+                    if b.cfg.get("accts").and_then(|v| v.as_u64()) == Some(5) { &ACCTS_DRIVE } else { &ACCTS_EXEC };
+                let k = b.cfg.get("stock").and_then(|v| v.as_i64()).unwrap_or(-1);
                 let mut stock: BTreeMap<String, u32> = BTreeMap::new();
-                for op in &b.ops {
-                    if s(op, "op") == "burn" {
-                        *stock.entry(s(op, "caller").to_string()).or_default() += 1;
+                if k >= 0 {
+                    stock = accts.iter().map(|x| (x.to_string(), k as u32)).collect();
+                } else {
+                    // one token in stock per burn call of the behaviour
+                    for op in &b.ops {
+                        if s(op, "op") == "burn" {
+                            *stock.entry(s(op, "caller").to_string()).or_default() += 1;
+                        }
                     }
                 }
-                let mut sys = Sys::new(&ACCTS_EXEC, &preset, &stock);
-                t.reset(reset_event(&sys, &preset));
+                let mut sys = Sys::new(accts, &preset, &stock);
+                t.reset(reset_event(&sys, &preset, k));
                 for op in &b.ops {
                     let ev = sys.step(op);
                     t.step(ev);
@@ -393,9 +404,9 @@ fn main() {
             let accts: &[&str] = &ACCTS_DRIVE;
             for run in 0..runs {
                 let preset = ["chain", "fresh", "crowd"][run % 3];
-                let stock: BTreeMap<String, u32> = accts.iter().map(|x| (x.to_string(), 3u32)).collect();
+                let stock: BTreeMap<String, u32> = accts.iter().map(|x| (x.to_string(), DRIVE_STOCK)).collect();
                 let mut sys = Sys::new(accts, preset, &stock);
-                let reset = reset_event(&sys, preset);
+                let reset = reset_event(&sys, preset, DRIVE_STOCK as i64);
                 let mut v = view(&reset["obs"]);
                 t.reset(reset);
                 // renouncing the admin early makes the rest of a run dull: at most once, late, in some runs
